@@ -12,6 +12,8 @@ fn main() {
 			let mut out = Out::create(&args[4]);
 			match args[2].as_str() {
 				"c20" => vh::c20_params_builder::replay(&cases, &mut out),
+				"c13" => vh::c13_registry::replay(&cases, &mut out),
+				"c16" => vh::c16_params_seq::replay(&cases, &mut out),
 				m => {
 					eprintln!("unknown module {m}");
 					std::process::exit(2);
